@@ -43,6 +43,8 @@ def finding_key(case, cfg, msg, status=None):
     if "SanityCheckPlan" in (msg or "") and "SortPreservingMergeExec" in msg and "does not satisfy order requirements" in msg \
             and st.get("datafusion.execution.target_partitions") not in (None, "1") and any(jt in ("left", "right") for jt, _ in joins):
         return "sanitycheck-spm-over-swapped-outer-join:target_partitions>1"
+    if "No field named __datafusion_extracted" in (msg or "") and "Optimizer rule" in msg:
+        return "leaf-expression-extraction-leaves-dangling-column"
     if "SanityCheckPlan" in (msg or "") and "does not satisfy distribution requirements" in msg and st.get("datafusion.optimizer.preserve_file_partitions") == "1" \
             and (cfg or {}).get("source") in ("csv", "parquet"):
         return "preserve_file_partitions=1:sanitycheck-distribution-requirements"
@@ -164,6 +166,9 @@ def run(ctx):
         def check(kind, cfg_id, d, rec, extra=None):
             nonlocal raised
             s_, m_ = classify(rec, views[d])
+            if s_ == "error" and "No such file or directory" in (m_ or ""):
+                # the table files of this run disappeared (another run of this check wiped work/C02): machinery, not a verdict
+                raise ToolError("C02: table files under work/C02 vanished during the run (concurrent run of the same check?)")
             st[f"{kind}:{s_}"] += 1
             b_ = base.get(d, ("notrun", None))[0]
             bad = None
@@ -198,6 +203,10 @@ def run(ctx):
             for rec in cc["main"]:
                 check("concurrent", cc["cfg"], 0, rec)
             for od in cc["other_diff"]:
+                if any("ivide by zero" in str((od.get(k) or {}).get("err", "")) for k in ("sequential", "concurrent")):
+                    # whether a lost CASE guard shows depends on the batch composition (known C03 finding simplify-boolean-case...): not a verdict here
+                    st["concurrent_other_query_evaluation_error"] += 1
+                    continue
                 st["concurrent_other_query_differs"] += 1
                 if raised < 15:
                     raised += 1
